@@ -152,6 +152,20 @@ def run_once(ctx):
                 res.findings.append(Finding("boot:tls-twin:" + l0.split(":")[-1].split(" ")[0],
                                             "step %r: plain %s / TLS %s" % (l0, x0[:3], x1[:3]), {"engine": "boot"}))
                 break
+        # the reference model does not know about transports: E1 histories over TLS must conform to it as well
+        from .. import e1
+        prof = {"name": "c20-tls", "tls": True, "max_clients": 4, "hostile_masks": False}
+        rs = e1.run_many(tls_bin, hooks and thooks, ctx.seeds(16 if ctx.quick else 160, "tls-e1"), 80, prof)
+        tot, cover, shapes, viol = e1.merge(rs)
+        res.evaluations += tot["steps"]
+        res.extra["tls_e1_steps"] = tot["steps"]
+        res.distinct.add("tls-e1")
+        for seed, v in viol:
+            res.findings.append(Finding("boot:tls-e1:" + v["signature"], "over TLS: " + v["detail"], {"engine": "e1-tls", "seed": seed}))
+        for r in rs:
+            if r["inconclusive"]:
+                res.inconclusive += 1
+                res.inconclusive_notes.append("tls e1 seed %s: %s" % (r["seed"], r["inconclusive"][:150]))
     except sut.BuildError as ex:
         res.inconclusive += 1
         res.inconclusive_notes.append("TLS build unavailable: %s" % str(ex)[-200:])
@@ -163,7 +177,7 @@ def run_once(ctx):
                 "burst, ADMIN/LINKS/VERSION/MOTD, OPER, JOIN/NAMES/MODE of the predefined channel, a configured user, a plain "
                 "member, an outsider, extra connections, log file); (hash) -g output accepts exactly its password via PASS and "
                 "OPER, plus the pure hash/verify round trip; (cli) -n -N -p -l -L override the file; (framing) MOTD variants incl. "
-                "multi-line; (TLS) the same 30-step script on a plain and a TLS server gives equal transcripts (671 allowed); "
+                "multi-line; (TLS) the same 30-step script on a plain and a TLS server gives equal transcripts (671 allowed) and E1 histories over TLS conform to the same transport-agnostic model; "
                 "distinct = one per case label" % n)
     res.floor("cases", res.evaluations, 120)
     res.assumptions = ["dns_lookup = true needs a resolver (no network) and ping/pong timeouts are second-scale (C17): not probed here",
